@@ -36,7 +36,7 @@ def make_inputs(rng, w=None, nq=None, nt=None):
             s[j] = s[j].lower()
         return "".join(s)
     nq = nq or rng.randint(1, 3)
-    nt = nt or rng.randint(1, 9)
+    nt = nt or rng.choice([rng.randint(1, 9), rng.randint(8, 16)])
     queries = [("q%d" % i, amb(rng.choice(pool[1:6]))) for i in range(nq)]
     targets = [("t%d" % i, amb(rng.choice(pool))) for i in range(nt)]
     return ref, queries, targets
@@ -46,7 +46,7 @@ def random_opts(rng, nt):
     o = {"table": rng.random() < 0.6, "ignore": [], "sizetotal": 0, "sizeup": 0, "sizedown": 0, "sizeside": 0, "sizesame": 0,
          "distall": 0, "distup": 0, "distdown": 0, "distside": 0, "threshpair": rng.choice([0.1, 0.1, 0.25, 0.5, 1.0, 0.0]),
          "threshtarg": rng.choice([10000, 10000, 2, 0]), "nofill": rng.random() < 0.4, "distpush": 0}
-    mode = rng.choice(["total", "sizes", "dist", "push", "sizes+dist", "all"])
+    mode = rng.choice(["total", "sizes", "dist", "push", "push", "sizes+dist", "all"])
     if mode == "total":
         o["sizetotal"] = rng.randint(1, 8)
     elif mode in ("sizes", "sizes+dist"):
